@@ -32,6 +32,7 @@ func runC16(c *Ctx) {
 	c.rule("Y6", "unpackPackageToLocalDestination unzips the verified temporary copy returned by TransferFiles, after it succeeded", 1)
 	c.rule("Y8", "getHash hands back the content of the .hash side file only where its length equals the digest length (or does not ignore the outcome of writing it)", 1)
 	c.rule("Y11", "immutable cache: the listing is sorted newest first, Fetch takes its element 0 and CleanEntry never removes element 0", 3)
+	c.rule("Y12", "getHash: where the write of the .hash side file fails, the side file is removed (or the failure is returned): a stale, well-formed side file never outlives the file it described", 1)
 	c.rule("Y10", "immutable CleanEntry decides what to keep and what to remove on a single listing of the entry directory", 1)
 	c.rule("Y9", "Fetch installs exactly one version: the destination is emptied unconditionally (a clean without exclusion patterns) before the package is unpacked into it, in both caches", 3)
 	c.rule("Y7", "Fetch/Store report the failure of the work they did: no deferred literal overwrites the error result unconditionally", 4)
@@ -41,6 +42,7 @@ func runC16(c *Ctx) {
 	c.c16Transfer()
 	c.c16ErrorKept()
 	c.c16SideFile()
+	c.c16SideFileRefreshed()
 	c.c16DestinationEmptied()
 }
 
@@ -1312,3 +1314,44 @@ func (c *Ctx) c16DestinationEmptied() {
 }
 
 func s_ipos(c *Ctx, in ssa.Instruction) string { return c.ipos(in) }
+
+// c16SideFileRefreshed (Y12): "a Store that reports success makes its version the one that subsequent Fetches return … even
+// if individual filesystem operations failed while it ran". TransferFiles verifies the copy with a forced digest of the
+// destination; getHash then refreshes the side file. If that write fails and is ignored, the previous side file — sixteen
+// characters, so trusted by Y8's length test — describes the previous package: Store succeeds, every Fetch fails.
+func (c *Ctx) c16SideFileRefreshed() {
+	f := c.fn(scPkg, "getHash")
+	key := fname(f) + "/failed-refresh-leaves-no-side-file"
+	var write *ssa.Call
+	allInstrs(f, func(in ssa.Instruction) {
+		if cl, ok := in.(*ssa.Call); ok && cl.Call.IsInvoke() {
+			switch cl.Call.Method.Name() {
+			case "WriteFile", "WriteToFile", "WriteFileWithContext":
+				write = cl
+			}
+		}
+	})
+	if write == nil {
+		c.ok("Y12", key, c.pos(f.Pos()), "no side file is written")
+		return
+	}
+	errs := errResultsOf(write)
+	good := false
+	if len(errs) > 0 {
+		path := write.Call.Args[0]
+		allInstrs(f, func(in ssa.Instruction) {
+			switch x := in.(type) {
+			case *ssa.Call:
+				if name, args, isFs := fsMethodCall(x); isFs && (name == "Rm" || strings.HasPrefix(name, "Remove")) && len(args) > 0 && sameValue(args[len(args)-1], path) && onNonNilSide(errs[0], x) {
+					good = true
+				}
+			case *ssa.Return:
+				if onNonNilSide(errs[0], x) && isErrorExit(f, x) {
+					good = true
+				}
+			}
+		})
+	}
+	c.check(good, "Y12", key, c.ipos(write), "a failed write of the side file is followed by its removal or reported",
+		"the outcome of writing the .hash side file is ignored: when the write fails after the package was replaced, the previous side file (well-formed, describing the previous package) stays — Store reports success and every later Fetch fails with a hash mismatch")
+}
